@@ -11,9 +11,9 @@ NOT_APPLICABLE = {}
 
 PROPS = {
     "C06": dict(
-        level_text="Proof (partial): the lexer (engine/lexer.go, whole file), the reader (engine/parser.go: Pratt parser, integer(), float()) and the writer (Atom/Integer/Float/Variable.WriteTerm, WriteCompound with all operator cases) are modelled in Lean. Kernel-checked for ALL inputs: termination of tokenisation and soundness of the 4-slot rune ring buffer (C06_token_progress, C06_ring_sound, C06_tokens_terminate), the atom round trip (C06_atom_roundtrip: unquote after quote is the identity, the lexer accepts whatever quote emits as one quoted token, an atom written unquoted lexes as the name token with that text), the integer round trip over all 64-bit integers (C06_integer_roundtrip), the shape of float texts (C06_float_text_shape). Operator notation (writeq with a non-empty operator context) and float bits are not proved; they are checked by the property's own oracle on the real interpreter (c06.terms, c06.numbers: write to a stream, read back with the same table, compare) and by model/implementation correspondence of text and read-back term.",
+        level_text="Proof (partial): the lexer (engine/lexer.go, whole file), the reader (engine/parser.go: Pratt parser, integer(), float()) and the writer (Atom/Integer/Float/Variable.WriteTerm, WriteCompound with all operator cases) are modelled in Lean. Kernel-checked for ALL inputs: termination of tokenisation and soundness of the 4-slot rune ring buffer (C06_token_progress, C06_ring_sound, C06_tokens_terminate), the atom round trip (C06_atom_roundtrip: unquote after quote is the identity, the lexer accepts whatever quote emits as one quoted token, an atom written unquoted lexes as the name token with that text), the integer round trip over all 64-bit integers through lexer and parser under every operator table (C06_integer_roundtrip), the shape of float texts (C06_float_text_shape), and the write_canonical round trip (C06_canonical_roundtrip: for every finite term, every operator table and every double_quotes flag, read_term of the written text returns the term up to variable renaming - by induction over terms through the full lexer and the Pratt parser model). Operator notation (writeq with a non-empty operator context: C06_op_roundtrip_statement stays open) and float bits are not proved; they are checked by the property's own oracle on the real interpreter (c06.terms, c06.numbers: write to a stream, read back with the same table, compare) and by model/implementation correspondence of text and read-back term.",
         level_note="Trusted: Lean kernel; the hand-written models (checked by c06.lex / c06.atoms / c06.numbers / c06.terms, not proved); Unicode character classes as an oracle parameter (theorems hold for every oracle; the driver uses the tables regenerated from Go's package unicode); strconv.FormatFloat/ParseFloat round trip (library law, checked per case against an exact rational conversion); char_conversion never reaches the lexer (Lexer.charConversions is only set by tests) - round-trip theorems assume the identity conversion.",
-        technique="Lean 4: Hoare-style specifications of every lexer function (ring-buffer credit invariant, consumption accounting, fuel adequacy), structural induction over atom texts / digit strings / terms, model/implementation correspondence, property oracle on the real reader and writer",
+        technique="Lean 4: Hoare-style specifications of every lexer function (ring-buffer credit invariant, consumption accounting, fuel adequacy), structural induction over atom texts / digit strings / terms (mutual Term/Args induction through lexer and parser for write_canonical), model/implementation correspondence, property oracle on the real reader and writer",
         lean_module="PrologVerif.Properties.C06",
         ns="PrologVerif.C06",
         streams=[dict(name="c06.lex", quick=4000, thorough=30000),
